@@ -527,6 +527,12 @@ func c07Sentinels() []*genCase {
 	add("fields differing only in the case of the first letter", &Desc{Name: "org.example.casefields", Mems: []Mem{{Kind: 'm', Name: "M", In: strct(Fld{"a", base(kInt)}, Fld{"A", base(kInt)}), Out: strct()}}}, 0)
 	add("recursive alias through containers", &Desc{Name: "org.example.recursive", Mems: []Mem{{Kind: 't', Name: "Tree", T: strct(Fld{"kids", wrap(kArray, alias("Tree"))}, Fld{"next", wrap(kMaybe, alias("Tree"))}, Fld{"byname", wrap(kMap, alias("Tree"))})}, {Kind: 'm', Name: "Walk", In: strct(Fld{"t", alias("Tree")}), Out: strct(Fld{"t", wrap(kMaybe, alias("Tree"))})}}}, 0)
 	add("object everywhere", &Desc{Name: "org.example.objects", Mems: []Mem{{Kind: 't', Name: "O", T: strct(Fld{"o", base(kObject)})}, {Kind: 'm', Name: "M", In: strct(Fld{"a", base(kObject)}, Fld{"b", wrap(kArray, base(kObject))}, Fld{"c", wrap(kMaybe, base(kObject))}), Out: strct(Fld{"r", wrap(kMap, base(kObject))}, Fld{"s", alias("O")})}, {Kind: 'e', Name: "E", T: strct(Fld{"detail", base(kObject)})}}}, 0)
+	add("alias of object and of optional object", &Desc{Name: "org.example.objalias", Mems: []Mem{{Kind: 't', Name: "Raw", T: base(kObject)}, {Kind: 't', Name: "MaybeRaw", T: wrap(kMaybe, base(kObject))}, {Kind: 't', Name: "MaybeAl", T: wrap(kMaybe, alias("Raw"))},
+		{Kind: 'm', Name: "M", In: strct(Fld{"a", alias("Raw")}, Fld{"b", wrap(kMaybe, alias("Raw"))}, Fld{"c", alias("MaybeRaw")}, Fld{"d", wrap(kArray, alias("Raw"))}), Out: strct(Fld{"r", alias("Raw")}, Fld{"s", wrap(kMaybe, alias("MaybeRaw"))}, Fld{"t", alias("MaybeAl")}, Fld{"u", wrap(kMap, alias("Raw"))})},
+		{Kind: 'e', Name: "E", T: strct(Fld{"detail", alias("Raw")}, Fld{"more", alias("MaybeRaw")})}}}, 0)
+	add("aliases of builtins and containers", &Desc{Name: "org.example.plainalias", Mems: []Mem{{Kind: 't', Name: "I", T: base(kInt)}, {Kind: 't', Name: "S", T: base(kString)}, {Kind: 't', Name: "F", T: base(kFloat)}, {Kind: 't', Name: "B", T: base(kBool)},
+		{Kind: 't', Name: "L", T: wrap(kArray, base(kObject))}, {Kind: 't', Name: "Mp", T: wrap(kMap, alias("I"))}, {Kind: 't', Name: "O", T: wrap(kMaybe, alias("S"))},
+		{Kind: 'm', Name: "M", In: strct(Fld{"i", alias("I")}, Fld{"s", alias("S")}, Fld{"f", alias("F")}, Fld{"b", alias("B")}, Fld{"l", alias("L")}), Out: strct(Fld{"m", alias("Mp")}, Fld{"o", alias("O")}, Fld{"oo", wrap(kMaybe, alias("O"))})}}}, 0)
 	add("no errors and no object type", &Desc{Name: "org.example.plain", Mems: []Mem{{Kind: 'm', Name: "M", In: strct(Fld{"a", base(kInt)}), Out: strct(Fld{"b", base(kFloat)})}}}, 0)
 	add("enum fields and alias of enum", &Desc{Name: "org.example.enums", Mems: []Mem{{Kind: 't', Name: "Color", T: enum("red", "green", "type")}, {Kind: 'm', Name: "M", In: strct(Fld{"c", alias("Color")}, Fld{"inline", enum("a", "b")}), Out: strct(Fld{"cs", wrap(kArray, alias("Color"))}, Fld{"e", wrap(kMaybe, enum("x", "y"))})}}}, 0)
 	add("many members", func() *Desc {
